@@ -93,6 +93,8 @@ func c11Alphabet() []appAVP {
 type c11Case struct {
 	host, realm bool
 	inband      int  // -1 absent, else value
+	inband2     int  // -1 absent, else the value of a second Inband-Security-Id AVP following the first
+	dress       int  // optional AVPs and AVP order of the CER (c11Dress)
 	inbandVS    bool // the AVP with code 299 carries the V bit and a vendor id (not the base Inband-Security-Id)
 	apps        []int
 	nAddrs      int  // configured Host-IP-Address values
@@ -108,7 +110,8 @@ func (cc c11Case) String(al []appAVP) string {
 		}
 		s += al[a].name
 	}
-	return s + fmt.Sprintf("] configured-addresses=%d ipv6-endpoint=%v zero-ids=%v inband-with-vendor-id=%v", cc.nAddrs, cc.ipv6, cc.zeroIDs, cc.inbandVS)
+	s += fmt.Sprintf("] second-inband=%d cer-shape=%d", cc.inband2, cc.dress)
+	return s + fmt.Sprintf(" configured-addresses=%d ipv6-endpoint=%v zero-ids=%v inband-with-vendor-id=%v", cc.nAddrs, cc.ipv6, cc.zeroIDs, cc.inbandVS)
 }
 
 // runC11 executes one CER end to end inside a bubble and applies the oracle.
@@ -160,27 +163,56 @@ func runC11(c *ev.Case, ctx *lib.Ctx, al []appAVP, cc c11Case) {
 		avps = append(avps, peer.Str(peer.OriginRealm, refcodec.DiameterIdentity, "example"))
 	}
 	avps = append(avps, peer.Addr4(peer.HostIP, 10, 9, 8, 7), peer.U32(peer.VendorID, 99), peer.Str(peer.ProductName, refcodec.UTF8String, "peer"))
+	// the shapes RFC 6733 5.3.1 allows besides the minimum: 1 Origin-State-Id, Supported-Vendor-Ids,
+	// Firmware-Revision; 2 several Host-IP-Addresses, IPv6 first; 3 undefined AVPs (plain and
+	// vendor-specific) around the others; 4 the identity after everything else (see below)
+	var trailer []*refcodec.Node
+	switch cc.dress {
+	case 1:
+		avps = append(avps, peer.U32(peer.OriginState, 0xFFFFFFFF), peer.U32(peer.SupportedVnd, 10415), peer.U32(peer.SupportedVnd, 13019), peer.U32(peer.Firmware, 1))
+	case 2:
+		v6 := &refcodec.Node{Code: peer.HostIP, Flags: 0x40, Kind: refcodec.Address, Fam: 2, B: net.ParseIP("2001:db8::99")}
+		avps = append([]*refcodec.Node{v6}, append(avps, peer.Addr4(peer.HostIP, 10, 9, 8, 8))...)
+	case 3:
+		u := &refcodec.Node{Code: 0x00E00123, Flags: 0, Kind: refcodec.Unknown, B: []byte{1, 2, 3, 4, 5}}
+		avps = append([]*refcodec.Node{u}, avps...)
+		trailer = []*refcodec.Node{{Code: 0x00E00124, Flags: 0x80, Vendor: 4242, Kind: refcodec.Unknown, B: []byte("vendor")}}
+	case 4:
+		k := 0
+		if cc.host {
+			k++
+		}
+		if cc.realm {
+			k++
+		}
+		trailer = append(trailer, avps[:k]...)
+		avps = avps[k:]
+	}
 	// application AVPs, the in-band security AVP somewhere in between
 	inbandPos := 0
 	if len(cc.apps) > 0 {
 		inbandPos = c.I % (len(cc.apps) + 1)
 	}
-	inbandNode := func() *refcodec.Node {
+	inbandNodes := func() []*refcodec.Node {
 		n := peer.U32(peer.InbandSec, uint32(cc.inband))
 		if cc.inbandVS {
 			n.Flags, n.Vendor = n.Flags|refcodec.AVPFlagV, 99
 		}
-		return n
+		if cc.inband2 >= 0 {
+			return []*refcodec.Node{n, peer.U32(peer.InbandSec, uint32(cc.inband2))}
+		}
+		return []*refcodec.Node{n}
 	}
 	for i, a := range cc.apps {
 		if i == inbandPos && cc.inband >= 0 {
-			avps = append(avps, inbandNode())
+			avps = append(avps, inbandNodes()...)
 		}
 		avps = append(avps, al[a].node())
 	}
 	if inbandPos >= len(cc.apps) && cc.inband >= 0 {
-		avps = append(avps, inbandNode())
+		avps = append(avps, inbandNodes()...)
 	}
+	avps = append(avps, trailer...)
 	hbh, e2e := uint32(0x11223344), uint32(0x55667788)
 	if cc.zeroIDs {
 		hbh, e2e = 0, 0
@@ -215,9 +247,12 @@ func runC11(c *ev.Case, ctx *lib.Ctx, al []appAVP, cc c11Case) {
 		}
 	}
 	common := len(shared) > 0
-	accept := cc.host && cc.realm && cc.inband <= 0 && common
+	// in-band security is required when the CER lists security mechanisms and NO_INBAND_SECURITY (0) is
+	// not among them
+	requiresSec := cc.inband > 0 && (cc.inband2 < 0 || cc.inband2 > 0)
+	accept := cc.host && cc.realm && !requiresSec && common
 	causes := map[uint32]bool{}
-	if cc.inband > 0 {
+	if requiresSec {
 		causes[5017] = true
 	}
 	if !common {
@@ -628,7 +663,11 @@ func TestC11(t *testing.T) {
 	presence := 12 // host x realm x inband
 	rec.Suite("exhaustive", len(seqs)*presence, func(c *ev.Case) {
 		si, pi := c.I/presence, c.I%presence
-		cc := c11Case{host: pi&1 == 0, realm: pi&2 == 0, inband: pi/4 - 1, apps: seqs[si]}
+		cc := c11Case{host: pi&1 == 0, realm: pi&2 == 0, inband: pi/4 - 1, inband2: -1, apps: seqs[si]}
+		cc.dress = (c.I / 12) % 5
+		if cc.inband >= 0 && (c.I/24)%3 != 0 {
+			cc.inband2 = (c.I / 72) % 2 // lists {0,0} {0,1} {1,0} {1,1}
+		}
 		// settings variants rotate with the case index
 		cc.nAddrs = c.I % 3
 		cc.ipv6 = (c.I/3)%2 == 1
@@ -676,8 +715,9 @@ func TestC11(t *testing.T) {
 		r := c.R
 		cc := c11Case{host: r.IntN(8) != 0, realm: r.IntN(8) != 0, inband: r.IntN(4) - 1, nAddrs: r.IntN(3), ipv6: r.IntN(2) == 0, zeroIDs: r.IntN(4) == 0}
 		cc.inbandVS = r.IntN(6) == 0
-		if cc.inband > 1 {
-			cc.inband = 0
+		cc.inband2, cc.dress = -1, r.IntN(5)
+		if cc.inband >= 0 && !cc.inbandVS && r.IntN(3) == 0 {
+			cc.inband2 = r.IntN(3)
 		}
 		for n := r.IntN(13); n > 0; n-- {
 			cc.apps = append(cc.apps, r.IntN(len(al)))
@@ -739,7 +779,7 @@ func TestC11Dict(t *testing.T) {
 		}
 	}
 	rec.Suite("two-type-application", len(seqs)*2, func(c *ev.Case) {
-		cc := c11Case{host: true, realm: true, inband: -1, apps: seqs[c.I/2], nAddrs: 1, zeroIDs: c.I%2 == 1}
+		cc := c11Case{host: true, realm: true, inband: -1, inband2: -1, apps: seqs[c.I/2], nAddrs: 1, zeroIDs: c.I%2 == 1}
 		c.Class("two-type/%s", al[cc.apps[0]].name)
 		leak := runBubbleWD(t, rec, c, 60*time.Second, func() { runC11(c, ctx, al, cc) })
 		if leak != "" && !c.Failed() {
